@@ -982,34 +982,49 @@ func runC08(c *Ctx, _ []string) {
 				if err != nil {
 					continue
 				}
-				off := 0
-				for off < len(data) && pnc == nil {
-					n := len(data) - off
-					if sc.part != nil && sc.part[0] < n {
-						n = sc.part[0]
+				done := make(chan bool, 1)
+				go func() { // the whole call sequence under a watchdog: a hang is a violation
+					off := 0
+					for off < len(data) && pnc == nil {
+						n := len(data) - off
+						if sc.part != nil && sc.part[0] < n {
+							n = sc.part[0]
+						}
+						var e error
+						e, pnc = guardErr(func() error { _, e := w.Write(data[off : off+n]); return e })
+						results = append(results, "W:"+errTag(e))
+						if e != nil {
+							anyErr = true
+						}
+						off += n
 					}
-					var e error
-					e, pnc = guardErr(func() error { _, e := w.Write(data[off : off+n]); return e })
-					results = append(results, "W:"+errTag(e))
-					if e != nil {
-						anyErr = true
+					for t := 0; t < 3 && pnc == nil; t++ {
+						var e error
+						e, pnc = guardErr(func() error { return w.Close() })
+						results = append(results, "C:"+errTag(e))
+						if e != nil {
+							anyErr = true
+						} else {
+							closeOK = true
+						}
+						if k == K+1 && t == 0 {
+							sink.closeErr = false // transient failure of the sink's Close
+						}
 					}
-					off += n
-				}
-				for t := 0; t < 3 && pnc == nil; t++ {
-					var e error
-					e, pnc = guardErr(func() error { return w.Close() })
-					results = append(results, "C:"+errTag(e))
-					if e != nil {
-						anyErr = true
-					} else {
-						closeOK = true
-					}
-					if k == K+1 && t == 0 {
-						sink.closeErr = false // transient failure of the sink's Close
-					}
+					done <- true
+				}()
+				hung := false
+				select {
+				case <-done:
+				case <-time.After(60 * time.Second):
+					hung = true
 				}
 				tag := fmt.Sprintf("sink fault at call %d/%d permanent=%v jobs=%d: %v", k, K, perm, sc.cfg.Jobs, results)
+				if hung {
+					viol("sink fault at call %d/%d permanent=%v jobs=%d: the Writer did not return within 60 s (hang)", k, K, perm, sc.cfg.Jobs)
+					c.Stats["distinct_nontrivial"] = nontrivial
+					return // goroutines are stuck: stop this run
+				}
 				switch {
 				case pnc != nil:
 					viol("%s: PANIC escaped: %v", tag, pnc)
